@@ -236,6 +236,17 @@ Fixpoint creators_first (seen : list N) (U : universe) : bool :=
   end.
 Definition wf_u (U : universe) : bool := wf (uproj U) && creators_first [] U.
 
+(* the static files that a step declares are inputs of LATER steps only (plan.py comes first and
+   declares the sources): then their re-declaration inside a build marks nobody who had his turn *)
+Fixpoint ustat_later_from (seen : list ustep) (U : universe) : bool :=
+  match U with
+  | [] => true
+  | u :: rest =>
+    forallb (fun z => forallb (fun p => negb (memN p (ustat u))) (inp (ust z))) (u :: seen) &&
+    ustat_later_from (u :: seen) rest
+  end.
+Definition ustat_later_b (U : universe) : bool := ustat_later_from [] U.
+
 (* plan given as a table: (step id, content id of the FIRST declared input, ids defined) *)
 Definition plan_tab (tab : list (N * N * list N)) (id : N) (contents envs : list (option N)) : list N :=
   amend_tab tab id contents.
